@@ -20,6 +20,8 @@ import PolyVerif.Model.Stl
     c07.holds.reencode <in> <out>     → out reads back to the same records as in, same length, and out = in
                                         when in has no signalling NaN   (stl_reencode)
     c07.holds.roundtrip <mesh> <mesh> → RoundTrips m r                 (stl_mesh_roundtrip)
+    c07.holds.geometric_normal_when_none_stored_witness <mesh> <mesh> → FullNormals m r (strict clause; known finding:
+                                        false for a mesh that stores no normals — stl_geometric_normal_counterexample)
 -/
 namespace Driver.C07
 open PolyVerif PolyVerif.Stl
@@ -187,6 +189,10 @@ def handle (op : String) (args : List String) : Option String := do
           pure (boolStr (decide (x = y) && o.length == i.length && (!exact || o == i)))
         | _, _, _ => pure "false"
       | _ => none
+  | "c07.holds.geometric_normal_when_none_stored_witness" =>
+      let (m, r) ← mesh? args
+      let (m', _) ← mesh? r
+      pure (boolStr (FullNormals P m m'))
   | "c07.holds.roundtrip" =>
       let (m, r) ← mesh? args
       let (m', _) ← mesh? r
